@@ -5,6 +5,7 @@
 package node
 
 import (
+	"strings"
 	"bytes"
 	"os"
 	"context"
@@ -200,9 +201,19 @@ type Layout struct {
 	StrangerDB string
 	// FailLeaf: one more leaf node whose task fails with a real error (not a "not found")
 	FailLeaf bool
+	// Track (C19): requests sent to and responses sent by every leaf are counted; Query returns only when every
+	// leaf has answered (or two simulated minutes have passed) and its task context has expired
+	Track *ReqTrack
 	// LeafDB: leaf i answers from this database whatever database the request names (a storage node with its own
 	// metadata: metric / field / tag key / tag value ids of its own); "" or missing = the named database
 	LeafDB []string
+}
+
+// ReqTrack counts the messages of one request.
+type ReqTrack struct {
+	Requests  map[string]int // leaf -> requests received
+	Responses map[string]int // leaf -> responses sent (whatever the receiver)
+	Running   int            // leaf tasks still running
 }
 
 // aliasEngine answers every database lookup with one fixed database.
@@ -277,7 +288,8 @@ func (n *Node) Query(db, sqlText string, lay Layout) (*commonmodels.ResultSet, e
 		return nil, fmt.Errorf("parse: %w", err)
 	}
 	q, ok := st.(*stmtpkg.Query)
-	if !ok {
+	meta, isMeta := st.(*stmtpkg.MetricMetadata)
+	if !ok && !isMeta {
 		return nil, fmt.Errorf("not a query statement")
 	}
 	root := models.StatelessNode{HostIP: "1.1.1.1", GRPCPort: 9000}
@@ -363,10 +375,22 @@ func (n *Node) Query(db, sqlText string, lay Layout) (*commonmodels.ResultSet, e
 		if p == nil {
 			return fmt.Errorf("unknown target %s", target)
 		}
+		if lay.Track != nil {
+			lay.Track.Requests[target]++
+			lay.Track.Running++
+		}
 		sim.Spawn("leaf", func() {
-			// as TaskHandler.process: an error of Process is answered on the request stream
-			if err := p.Process(tc, nil, req); err != nil {
+			// the request stream: metadata requests are answered on it, and - as TaskHandler.process does - an
+			// error of Process
+			stream := &fakeStream{send: func(r *protoCommonV1.TaskResponse) error {
+				deliver(&pendingResp{resp: r, from: target, to: to})
+				return nil
+			}}
+			if err := p.Process(tc, stream, req); err != nil {
 				deliver(&pendingResp{resp: &protoCommonV1.TaskResponse{RequestID: req.RequestID, RequestType: req.RequestType, Completed: true, ErrMsg: err.Error()}, from: target, to: to})
+			}
+			if lay.Track != nil {
+				lay.Track.Running--
 			}
 		})
 		return nil
@@ -382,6 +406,9 @@ func (n *Node) Query(db, sqlText string, lay Layout) (*commonmodels.ResultSet, e
 	// working are decisions of the tape and the scheduler
 	stop := false
 	deliver = func(p *pendingResp) {
+		if lay.Track != nil && strings.HasPrefix(p.from, "2.2.") {
+			lay.Track.Responses[p.from]++
+		}
 		d := time.Duration(0)
 		if lay.Delay != nil {
 			d = lay.Delay()
@@ -416,6 +443,37 @@ func (n *Node) Query(db, sqlText string, lay Layout) (*commonmodels.ResultSet, e
 	defer func() { stop = true }()
 	ctx, cancel := context.WithTimeout(context.Background(), 30*time.Second)
 	defer cancel()
+	if lay.Track != nil {
+		// the caller judges the counts: every leaf task must have ended (a leaf answers at the latest when its
+		// task context expires, one minute after the request)
+		defer func() {
+			answered := func() bool {
+				for leaf := range lay.Track.Requests {
+					if lay.Track.Responses[leaf] == 0 {
+						return false
+					}
+				}
+				return lay.Track.Running == 0
+			}
+			for i := 0; i < 1250 && !answered(); i++ {
+				simrt.Sleep(100 * time.Millisecond)
+			}
+			// a second answer would come at the latest when the task context of the leaf expires
+			simrt.Sleep(65 * time.Second)
+		}()
+	}
+	if isMeta {
+		rs, err := query.MetricMetadataSearch(ctx, &models.ExecuteParam{Database: db, SQL: sqlText}, meta,
+			&query.SearchMgr{Timeout: time.Minute, CurNode: root, Choose: chooser, TaskMgr: rootMgr, TransportMgr: transport})
+		if err != nil {
+			return nil, err
+		}
+		out := &commonmodels.ResultSet{}
+		if vals, ok := rs.([]string); ok {
+			out.MetricName = strings.Join(vals, ",") // (the values of a suggest answer, for the caller)
+		}
+		return out, nil
+	}
 	rs, err := query.MetricDataSearch(ctx, &models.ExecuteParam{Database: db, SQL: sqlText}, q,
 		&query.SearchMgr{Timeout: time.Minute, CurNode: root, Choose: chooser, TaskMgr: rootMgr, TransportMgr: transport})
 	if err != nil {
